@@ -1,4 +1,5 @@
 import ScrutModel.Lemmas.Config
+import ScrutModel.Lemmas.TestRunScript
 /-!
 # C16 — Config precedence: command line > test case > document defaults > format
 
@@ -94,5 +95,107 @@ example : (effectiveTC {} { env := [(1, 10)] } { defaults := { env := [(1, 20), 
   decide
 example : (effectiveTC {} { env := [(1, 10)] } { defaults := { env := [(1, 20), (2, 21)] } } {} {} [(3, 30)]).env.get 2 = some 21 := by
   decide
+
+/-! ## the single-script executor (Cram documents, `--cram-compat`) carries `strip_ansi_escaping`
+
+Fix `set_consistent!(strip_ansi_escaping)` in `compile_testcase`: before, the key was not carried into
+the configuration of the ONE compiled script, so under `--cram-compat` it had no effect from any layer.
+Now (`Model/TestRun.lean` section 6) it is carried like the other consistent keys, and
+`render_output` of the compiled test case strips the WHOLE captured stream. -/
+section Script
+open Scrut.TestRun Scrut.Exec
+
+/-- the compiled key is the value the test cases carry: the first set value, which every later test
+case has to repeat (`setConsistent`); every test case carries it or nothing, and a compiled `true`
+comes from a test case that sets `true` -/
+theorem C16_script_strip_ansi_carried {tests : List Test} {cfg : Compiled}
+    (h : compileTestcase tests = some cfg) :
+    setConsistent none (tests.map (·.cfg.stripAnsi)) = some cfg.stripAnsi ∧
+    (∀ t ∈ tests, t.cfg.stripAnsi = none ∨ t.cfg.stripAnsi = cfg.stripAnsi) ∧
+    (cfg.stripAnsi = some true → ∃ t ∈ tests, t.cfg.stripAnsi = some true) :=
+  ⟨(compileTestcase_inv h).2.2.2, compiled_stripAnsi h, compiled_stripAnsi_origin h⟩
+
+/-- … when every test case carries `true`, so does the compiled configuration -/
+theorem C16_script_strip_ansi_all_true {tests : List Test} {cfg : Compiled}
+    (h : compileTestcase tests = some cfg) (hne : tests ≠ [])
+    (hall : ∀ t ∈ tests, t.cfg.stripAnsi = some true) : cfg.stripAnsi = some true := by
+  cases tests with
+  | nil => exact absurd rfl hne
+  | cons t ts =>
+    rcases compiled_stripAnsi h t (by simp) with h1 | h1
+    · rw [hall t (by simp)] at h1; cases h1
+    · rw [← h1]; exact hall t (by simp)
+
+/-- diverging values are the execution error "inconsistent configuration value for
+strip_ansi_escaping" (exit status 1, nothing reported) -/
+theorem C16_script_strip_ansi_inconsistent (tests : List Test) (tcs : List TC) (runs : List SRan)
+    (h : setConsistent none (tests.map (·.cfg.stripAnsi)) = none) :
+    execScriptBytes tests tcs runs = .error .exec :=
+  execScriptBytes_strip_inconsistent tests tcs runs h
+
+/-- what the compiled test case's `render_output` does to a captured stream: `replace_crlf` unless the
+compiled `keep_crlf` is `true`, then `strip_ansi_sequences_bytes` iff the compiled key is `true` -/
+theorem C16_script_render_output (cfg : Compiled) (raw : Bytes) :
+    Scrut.Crlf.renderOutput cfg.keepCrlf cfg.stripAnsi (fun b => some (Scrut.StripAnsi.strip b)) raw =
+      some (if cfg.stripAnsi = some true then Scrut.StripAnsi.strip (rend cfg raw) else rend cfg raw) :=
+  renderOutput_compiled_full cfg raw
+
+/-- **nothing to strip, nothing changes** (full strength): when all test cases carry the same
+`strip_ansi_escaping: true` and no command of the runs the document uses wrote an `ESC` byte (the only
+byte `strip_ansi_sequences_bytes` reacts to: `StripAnsi.strip_no_esc`; it knows no 8-bit C1
+introducers), the result -- report, execution error, `unsupported`, all of it -- is the one of the same
+test cases without the key -/
+theorem C16_script_strip_ansi_no_escape (tests : List Test) (runs : List SRan)
+    (hall : ∀ t ∈ tests, t.cfg.stripAnsi = some true)
+    (hesc : ∀ r ∈ runs.take tests.length,
+      Scrut.StripAnsi.esc ∉ r.ran.stdout ∧ Scrut.StripAnsi.esc ∉ r.ran.stderr) :
+    runScript tests runs = runScript (tests.map clearStrip) runs := by
+  obtain ⟨a, ha⟩ := setConsistent_all_same true (tests.map (·.cfg.stripAnsi)) none (Or.inl rfl)
+    (fun v hv => by
+      obtain ⟨t, ht, rfl⟩ := List.mem_map.1 hv
+      exact hall t ht)
+  exact runScript_strip_no_escape tests runs a ha hesc
+
+/-- … the same for ANY consistent value of the key (`some false` on every test case, the key on the
+last test case only, …) -/
+theorem C16_script_strip_ansi_consistent_no_escape (tests : List Test) (runs : List SRan) (a : Option Bool)
+    (hcons : setConsistent none (tests.map (·.cfg.stripAnsi)) = some a)
+    (hesc : ∀ r ∈ runs.take tests.length,
+      Scrut.StripAnsi.esc ∉ r.ran.stdout ∧ Scrut.StripAnsi.esc ∉ r.ran.stderr) :
+    runScript tests runs = runScript (tests.map clearStrip) runs :=
+  runScript_strip_no_escape tests runs a hcons hesc
+
+/- NOT proved (named here so that it is not forgotten): a statement "in terms of the runs" for outputs
+that DO hold escape sequences -- "when every sequence in a command's bytes is complete, the test is
+judged on `strip` of its own bytes" -- needs `strip (payload ++ divider ++ rest) = strip payload ++
+divider ++ strip rest` for payloads that end outside a sequence; `Lemmas/StripAnsi.lean` has the
+pieces (`strip_append_no_esc`, `strip_csi`), the composition with the divider protocol is open.  What
+the model says there is fixed by the evaluated documents below and by the correspondence streams
+`e2e-testdoc-cram-compat` / `e2e-testdoc-cram-compat-strip-ansi`. -/
+
+/-- **the key has an effect under `--cram-compat`**: the document
+`# t / ```scrut {strip_ansi_escaping: true} / $ cmd / foo / ``` `, the command writes
+`ESC [ 1 m foo ESC [ 0 m LF`: the expectation `foo` accepts it -/
+example : testDocumentCompatBytes exStripBytes [⟨⟨[27, 91, 49, 109, 102, 111, 111, 27, 91, 48, 109, 10], [], 0⟩, false⟩] =
+    .report [(0, .ok)] 0 := ex_strip_report
+/-- … the same output without the key: wrong output -/
+example : testDocumentCompatBytes exNoStripBytes [⟨⟨exSgrFoo, [], 0⟩, false⟩] = .report [(0, .malformed)] 50 :=
+  ex_nostrip_report
+/-- two test cases, both with the key: both stripped -/
+example : testDocumentCompatBytes exStrip2Bytes
+    [⟨⟨exSgrFoo, [], 0⟩, false⟩, ⟨⟨[27, 91, 51, 49, 109, 98, 97, 114, 10], [], 0⟩, false⟩] =
+    .report [(0, .ok), (1, .ok)] 0 := ex_strip2_report
+/-- the key on the first test case only: an execution error -/
+example : testDocumentCompatBytes exStripDivBytes
+    [⟨⟨exSgrFoo, [], 0⟩, false⟩, ⟨⟨[98, 97, 114, 10], [], 0⟩, false⟩] = .execError := ex_strip_diverging
+/-- an unterminated OSC `ESC ] 0 ; t` behind the first test's `foo`: the dividers are swallowed, an
+execution error, not a verdict; likewise a lone `ESC` at the end of the bytes -/
+example : testDocumentCompatBytes exStrip2Bytes
+    [⟨⟨[102, 111, 111, 10, 27, 93, 48, 59, 116], [], 0⟩, false⟩, ⟨⟨[98, 97, 114, 10], [], 0⟩, false⟩] =
+    .execError := ex_strip_open_osc
+example : testDocumentCompatBytes exStripBytes [⟨⟨[102, 111, 111, 10, 27], [], 0⟩, false⟩] = .execError :=
+  ex_strip_lone_esc
+
+end Script
 
 end Scrut.Props.C16
